@@ -217,6 +217,9 @@ fn idf<T>(x: T) -> T {
 
 struct Handle {
     ctx: usize,
+    /// the owner under which accessors of this handle are created and rendered (where `use_i18n()` is evaluated): for a
+    /// handle obtained by a component's `use_i18n()` the owner of that component, else (None) the owner of the context
+    owner: Option<Owner>,
     get: Box<dyn Fn() -> Locale>,
     get_tracked: Box<dyn Fn() -> Locale>,
     set: Box<dyn Fn(Locale)>,
@@ -487,6 +490,7 @@ macro_rules! mk_handle {
         let id: usize = $id;
         Handle {
             ctx: id,
+            owner: None,
             get: Box::new(move || $ctx.get_locale_untracked()),
             get_tracked: Box::new(move || $ctx.get_locale()),
             set: Box::new(move |l| $ctx.set_locale(l)),
@@ -566,13 +570,126 @@ fn flavour(n: &str) -> (usize, usize, usize) {
     (n / 32, (n % 32) / 2, n % 2)
 }
 
+// ---- component-level providers: a forest of `<Probe/>` and `<I18nSubContextProvider>` rendered natively (SSR)
+#[derive(Clone)]
+enum Node {
+    Lookup,
+    Sub { wire: Option<usize>, name: Option<String>, children: Vec<Node> },
+}
+
+/// `L` | `P<signal idx|->_<cookie name hex|->[<forest>]`, nodes separated by `.`
+fn parse_forest(b: &[u8], i: &mut usize) -> Vec<Node> {
+    let mut out = vec![];
+    loop {
+        match b.get(*i) {
+            Some(b'L') => {
+                *i += 1;
+                out.push(Node::Lookup);
+            }
+            Some(b'P') => {
+                *i += 1;
+                let st = *i;
+                while b[*i] != b'[' {
+                    *i += 1;
+                }
+                let head = std::str::from_utf8(&b[st..*i]).unwrap();
+                let (w, n) = head.split_once('_').unwrap();
+                *i += 1;
+                let children = parse_forest(b, i);
+                assert_eq!(b[*i], b']');
+                *i += 1;
+                out.push(Node::Sub { wire: opt_idx(w), name: unhex(n), children });
+            }
+            _ => {}
+        }
+        if b.get(*i) == Some(&b'.') {
+            *i += 1;
+        } else {
+            return out;
+        }
+    }
+}
+
+/// what rendering records, in order
+enum Ev {
+    /// a sub-context provider was reached: its Set-Cookie log
+    NewCtx(Log),
+    /// a component called `use_i18n()`: what it got and the owner it ran under
+    Probe(I18nContext<Locale>, Owner),
+}
+type Reg = Arc<Mutex<Vec<Ev>>>;
+
+#[derive(Clone)]
+struct Env {
+    reg: Reg,
+    signals: Vec<RwSignal<Locale>>,
+    cookie: Option<String>,
+    accept: Option<String>,
+}
+
+/// a component that looks the context up
+#[component]
+fn Probe(reg: Reg) -> impl IntoView {
+    let i18n = use_i18n();
+    reg.lock().unwrap().push(Ev::Probe(i18n, Owner::current().unwrap()));
+    view! { <span>{t!(i18n, hello)}</span> }
+}
+
+/// the nodes one after the other, as sibling components; every provider gets a `<Probe/>` as first child
+fn render_forest(nodes: Vec<Node>, env: Env) -> AnyView {
+    nodes
+        .into_iter()
+        .map(|n| match n {
+            Node::Lookup => view! { <Probe reg=env.reg.clone() /> }.into_any(),
+            Node::Sub { wire, name, children } => {
+                let log: Log = Default::default();
+                env.reg.lock().unwrap().push(Ev::NewCtx(log.clone()));
+                let (e2, reg) = (env.clone(), env.reg.clone());
+                let (co, lo) = (cookie_opts(env.cookie.clone(), log), lang_opts(env.accept.clone()));
+                let sig = wire.map(|s| env.signals[s]);
+                match (sig, name) {
+                    (Some(sig), Some(name)) => view! {
+                        <I18nSubContextProvider initial_locale=sig cookie_name=name cookie_options=co ssr_lang_header_getter=lo>
+                            <Probe reg=reg />
+                            {render_forest(children, e2)}
+                        </I18nSubContextProvider>
+                    }
+                    .into_any(),
+                    (Some(sig), None) => view! {
+                        <I18nSubContextProvider initial_locale=sig cookie_options=co ssr_lang_header_getter=lo>
+                            <Probe reg=reg />
+                            {render_forest(children, e2)}
+                        </I18nSubContextProvider>
+                    }
+                    .into_any(),
+                    (None, Some(name)) => view! {
+                        <I18nSubContextProvider cookie_name=name cookie_options=co ssr_lang_header_getter=lo>
+                            <Probe reg=reg />
+                            {render_forest(children, e2)}
+                        </I18nSubContextProvider>
+                    }
+                    .into_any(),
+                    (None, None) => view! {
+                        <I18nSubContextProvider cookie_options=co ssr_lang_header_getter=lo>
+                            <Probe reg=reg />
+                            {render_forest(children, e2)}
+                        </I18nSubContextProvider>
+                    }
+                    .into_any(),
+                }
+            }
+        })
+        .collect::<Vec<_>>()
+        .into_any()
+}
+
 struct Watcher {
     cell: Arc<Mutex<String>>,
     _eff: RenderEffect<()>,
 }
 
 enum Frozen {
-    Acc(usize, Render, Render),
+    Acc(Owner, Render, Render),
     Watch(Watcher),
 }
 
@@ -580,21 +697,48 @@ struct World {
     owners: Vec<Owner>,
     logs: Vec<Log>,
     handles: Vec<Handle>,
-    /// (context, accessor a, accessor b)
-    accessors: Vec<(usize, Render, Render)>,
+    /// (owner of the handle, accessor a, accessor b)
+    accessors: Vec<(Owner, Render, Render)>,
     watchers: Vec<Watcher>,
     /// observers the model expects never to change: accessors over a `Locale` value bound at creation, effects that
     /// only read untracked
     frozen: Vec<Frozen>,
     signals: Vec<RwSignal<Locale>>,
+    /// the rendered component trees (kept alive: they own the child owners of the providers)
+    views: Vec<AnyView>,
 }
 
 impl World {
+    /// registers what a rendering recorded: a provider's context gets the next context index (its owner = the owner of the
+    /// probe placed first inside it), every probe becomes a handle
+    fn register(&mut self, reg: &Reg) {
+        let evs: Vec<Ev> = std::mem::take(&mut *reg.lock().unwrap());
+        let mut pending: Option<Log> = None;
+        for ev in evs {
+            match ev {
+                Ev::NewCtx(log) => pending = Some(log),
+                Ev::Probe(i18n, owner) => {
+                    let id = match pending.take() {
+                        Some(log) => {
+                            self.owners.push(owner.clone());
+                            self.logs.push(log);
+                            self.owners.len() - 1
+                        }
+                        None => usize::MAX,
+                    };
+                    let mut h = root_handle(id, i18n);
+                    h.owner = Some(owner);
+                    self.handles.push(h);
+                }
+            }
+        }
+    }
+
     /// `h<locales of all handles (untracked get, tracked get)>/a<accessor pairs>/w<watchers>/c<per context Set-Cookie log>/z<frozen observers>`
     /// every accessor is rendered under the owner of its context (where `use_i18n()` finds that context)
     fn snapshot(&self) -> String {
         let h: Vec<String> = self.handles.iter().map(|h| format!("{}{}", idx((h.get)()), idx((h.get_tracked)()))).collect();
-        let pair = |c: &usize, a: &Render, b: &Render| self.owners[*c].with(|| format!("{}{}", a(), b()));
+        let pair = |c: &Owner, a: &Render, b: &Render| c.with(|| format!("{}{}", a(), b()));
         let a: Vec<String> = self.accessors.iter().map(|(c, a, b)| pair(c, a, b)).collect();
         let w: Vec<String> = self.watchers.iter().map(|w| w.cell.lock().unwrap().clone()).collect();
         let c: Vec<String> = self.logs.iter().map(|l| l.lock().unwrap().iter().map(|x| x.rsplit_once('=').map(|p| p.1.to_string()).unwrap_or_default()).collect::<Vec<_>>().join("+")).collect();
@@ -613,12 +757,17 @@ impl World {
     }
 
     /// one accessor of handle `h`, created under the owner of its context
+    fn owner_of(&self, h: usize) -> Owner {
+        let hd = &self.handles[h];
+        hd.owner.clone().unwrap_or_else(|| self.owners[hd.ctx].clone())
+    }
+
     /// the result renders the accessor and prints the rendering as one digit (`digit_of`)
     fn make(&self, h: usize, fl: &str, p: &str) -> Render {
         let hd = &self.handles[h];
         let (m, e, i) = flavour(fl);
         let p: usize = p.parse().unwrap();
-        let raw = self.owners[hd.ctx].with(|| (hd.accessor)(m, e, i, p)).expect("unknown flavour");
+        let raw = self.owner_of(h).with(|| (hd.accessor)(m, e, i, p)).expect("unknown flavour");
         Box::new(move || digit_of(m, p, &raw()))
     }
 
@@ -627,7 +776,7 @@ impl World {
         let s = self.make(h, fl, p);
         let cell: Arc<Mutex<String>> = Default::default();
         let c2 = cell.clone();
-        let eff = self.owners[self.handles[h].ctx].with(|| RenderEffect::new(move |_| *c2.lock().unwrap() = s()));
+        let eff = self.owner_of(h).with(|| RenderEffect::new(move |_| *c2.lock().unwrap() = s()));
         Watcher { cell, _eff: eff }
     }
 }
@@ -641,15 +790,39 @@ impl World {
 ///   `Z<h>,<fa>,<fb>` the same, listed with the frozen observers
 ///   `M<h>,<f>[,<p>]` mount a render effect showing an accessor of flavour f of handle h   `Y<h>,<f>` the same, listed with the
 ///   frozen observers
+///   `T<h>,<forest>` render a forest of components (`parse_forest`: lookups and `<I18nSubContextProvider>`s) under the
+///   owner of handle h: every lookup becomes a new handle, every provider a new context (its first handle: the lookup placed
+///   first inside it)
 ///   `G` no-op (just observe)   `F` flush (executor ticks until quiescent)
 /// output: `snapshot` after context creation and after every op, joined by `;`
 async fn run16(f: &[&str]) -> String {
-    let enable = f[0] == "1";
+    // 0 / 1: root context by init_i18n_context_with_options + provide_context; 2 / 3: by rendering <I18nContextProvider>
+    let (enable, component_root) = (f[0] == "1" || f[0] == "3", f[0] == "2" || f[0] == "3");
     let (cookie, accept) = (unhex(f[1]), unhex(f[2]));
     let owner = Owner::current().unwrap();
-    let mut w = World { owners: vec![], logs: vec![], handles: vec![], accessors: vec![], watchers: vec![], frozen: vec![], signals: vec![] };
+    let mut w = World { owners: vec![], logs: vec![], handles: vec![], accessors: vec![], watchers: vec![], frozen: vec![], signals: vec![], views: vec![] };
     let mut out: Vec<String> = vec![];
     let log: Log = Default::default();
+    if component_root {
+        let reg: Reg = Default::default();
+        let (r2, co, lo) = (reg.clone(), cookie_opts(cookie.clone(), log.clone()), lang_opts(accept.clone()));
+        let r = catch_unwind(AssertUnwindSafe(|| {
+            view! {
+                <I18nContextProvider enable_cookie=enable cookie_options=co ssr_lang_header_getter=lo>
+                    <Probe reg=r2 />
+                </I18nContextProvider>
+            }
+            .into_any()
+        }));
+        let Ok(v) = r else { return "PANIC".into() };
+        w.views.push(v);
+        reg.lock().unwrap().insert(0, Ev::NewCtx(log));
+        w.register(&reg);
+        if w.handles.len() != 1 {
+            return "PANIC".into();
+        }
+        w.handles[0].ctx = 0;
+    } else {
     let r = catch_unwind(AssertUnwindSafe(|| {
         let ctx = init_i18n_context_with_options::<Locale>(main_options(Some(enable), None, cookie.clone(), accept.clone(), log.clone()));
         provide_context(ctx);
@@ -659,6 +832,7 @@ async fn run16(f: &[&str]) -> String {
     w.owners.push(owner);
     w.logs.push(log);
     w.handles.push(root_handle(0, ctx));
+    }
     out.push(w.snapshot());
     for op in &f[3..] {
         let (k, rest) = op.split_at(1);
@@ -700,7 +874,8 @@ async fn run16(f: &[&str]) -> String {
                 "U" => (w.handles[a[0].parse::<usize>().unwrap()].set_untracked)(loc(a[1].parse().unwrap())),
                 "C" => {
                     let h = &w.handles[a[0].parse::<usize>().unwrap()];
-                    if let Some(n) = (h.scope)(h.ctx) {
+                    if let Some(mut n) = (h.scope)(h.ctx) {
+                        n.owner = h.owner.clone();
                         w.handles.push(n);
                     }
                 }
@@ -708,12 +883,22 @@ async fn run16(f: &[&str]) -> String {
                     let h: usize = a[0].parse().unwrap();
                     let (pa, pb) = (a.get(3).copied().unwrap_or("0"), a.get(4).copied().unwrap_or("0"));
                     let (x, y) = (w.make(h, a[1], pa), w.make(h, a[2], pb));
-                    let c = w.handles[h].ctx;
+                    let c = w.owner_of(h);
                     if k == "A" {
                         w.accessors.push((c, x, y));
                     } else {
                         w.frozen.push(Frozen::Acc(c, x, y));
                     }
+                }
+                "T" => {
+                    // render a forest of components under the owner of handle h
+                    let h: usize = a[0].parse().unwrap();
+                    let forest = parse_forest(a[1].as_bytes(), &mut 0);
+                    let reg: Reg = Default::default();
+                    let env = Env { reg: reg.clone(), signals: w.signals.clone(), cookie: cookie.clone(), accept: accept.clone() };
+                    let v = w.owner_of(h).with(|| render_forest(forest, env));
+                    w.views.push(v);
+                    w.register(&reg);
                 }
                 "M" | "Y" => {
                     let m = w.mount(a[0].parse().unwrap(), a[1], a.get(2).copied().unwrap_or("0"));
